@@ -11,6 +11,10 @@ Import ListNotations.
 (* the regenerated tables stay folded in the inductive proofs: nothing below depends on their
    contents except the finite checks of Part D, which are vm_compute facts *)
 Opaque no_args_tests short_types strip_excluded frm_field_headers.
+(* the repair probes of translator/tables_c04.py stay folded as well: every proof below holds for
+   both values (a proof that went through by computing the value of the tree at hand would break
+   on the other tree) *)
+Opaque split_rows_carry_save_name group_split_without_cases_exports loose_exit_rows pairs_follow_cases.
 
 (* ------------------------------------------------------------------ generic helpers *)
 Lemma rmap_bind {E S T V} (g : T -> V) (r : result E S) (k : S -> result E T) :
@@ -167,20 +171,34 @@ Proof.
   - reflexivity.
 Qed.
 
+Lemma split_save_name_rn s : rn_pay (split_save_name (U:=U) s) = split_save_name (U:=U') s.
+Proof. unfold split_save_name. destruct split_rows_carry_save_name; reflexivity. Qed.
+
+Lemma rn_tp_save t (a : pay U) s :
+  (t, rn_pay a ++ split_save_name (U:=U') s) = rn_tp (t, a ++ split_save_name (U:=U) s).
+Proof. unfold rn_tp; cbn [fst snd]. unfold rn_pay at 2. rewrite map_app. fold (rn_pay (split_save_name (U:=U) s)). rewrite split_save_name_rn. reflexivity. Qed.
+
 Lemma router_kwargs_rn r : router_kwargs (rn_router r) = rmap rn_tp (router_kwargs r).
 Proof.
-  unfold router_kwargs; cbn. destruct (sw_wait r); [reflexivity|].
-  destruct (str_eqb (sw_operand r) groups_operand); [|reflexivity].
-  destruct (sw_cases r) as [|k ks]; cbn; [reflexivity|].
-  rewrite case_arg1_rn, case_arg0_rn.
-  destruct (case_arg1 k); [|reflexivity]. destruct (case_arg0 k); reflexivity.
+  unfold router_kwargs; cbn [sw_wait sw_operand sw_cases sw_result rn_router].
+  destruct (sw_wait r); [reflexivity|].
+  destruct (str_eqb (sw_operand r) groups_operand).
+  - destruct (sw_cases r) as [|k ks]; cbn [map].
+    + destruct group_split_without_cases_exports; [|reflexivity].
+      cbn [rmap]. rewrite <- rn_tp_save. reflexivity.
+    + rewrite case_arg1_rn, case_arg0_rn.
+      destruct (case_arg1 k); [|reflexivity]. destruct (case_arg0 k); [|reflexivity].
+      cbn [option_map rmap]. rewrite <- rn_tp_save. reflexivity.
+  - cbn [rmap]. rewrite <- rn_tp_save. reflexivity.
 Qed.
 
 Lemma node_kwargs_rn n : node_kwargs (rn_node n) = rmap (option_map rn_tp) (node_kwargs n).
 Proof.
-  unfold node_kwargs; cbn. destruct (n_kind n) as [d|rk r|rs cats]; cbn; try reflexivity.
-  destruct rk; cbn; try reflexivity.
-  rewrite router_kwargs_rn. destruct (router_kwargs r); reflexivity.
+  unfold node_kwargs; cbn [n_kind rn_node]. destruct (n_kind n) as [d|rk r|rs cats]; cbn [rn_nkind rmap option_map].
+  - reflexivity.
+  - destruct rk; cbn; try reflexivity.
+    rewrite router_kwargs_rn. destruct (router_kwargs r); reflexivity.
+  - unfold rn_tp; cbn [fst snd]. rewrite split_save_name_rn. reflexivity.
 Qed.
 
 Lemma node_base_pay_rn n : node_base_pay (rn_node n) = rn_pay (node_base_pay n).
@@ -249,6 +267,25 @@ Proof.
   destruct (category_pairs ueqb r last rest (c_uuid c :: covered)) as [[ps cv]|e]; reflexivity.
 Qed.
 
+Lemma case_pairs_rn r last cats cases : forall covered,
+  case_pairs ueqb' (rn_router r) (rn_tid last) (map rn_cat cats) (map rn_case cases) (map sg covered)
+  = rmap rn_pc (case_pairs ueqb r last cats cases covered).
+Proof.
+  induction cases as [|k rest IH]; intros covered; cbn [case_pairs map]; [reflexivity|].
+  rewrite (find_map rn_cat (fun c => ueqb (k_cat k) (c_uuid c))) by (intros x; cbn; apply ueqb_rn).
+  destruct (find _ cats) as [c|]; cbn [option_map]; [|apply IH].
+  rewrite case_cond_rn. destruct (case_cond r k c) as [cd|e]; cbn [rmap bind]; [|reflexivity].
+  specialize (IH (c_uuid c :: covered)). cbn [map] in IH. cbn [c_uuid rn_cat]. rewrite IH.
+  destruct (case_pairs ueqb r last cats rest (c_uuid c :: covered)) as [[ps cv]|e]; reflexivity.
+Qed.
+
+Lemma noresp_pairs_rn r last : noresp_pairs (rn_router r) (rn_tid last) = map rn_pair (noresp_pairs r last).
+Proof.
+  unfold noresp_pairs; cbn [sw_noresp rn_router]. destruct (sw_noresp r) as [c|]; cbn [option_map]; [|reflexivity].
+  cbn [c_dest rn_cat]. destruct (c_dest c); cbn [option_map]; [reflexivity|].
+  destruct loose_exit_rows; reflexivity.
+Qed.
+
 Lemma all_categories_rn r : all_categories (rn_router r) = map rn_cat (all_categories r).
 Proof.
   unfold all_categories; cbn. rewrite !map_app. cbn. destruct (sw_noresp r); reflexivity.
@@ -257,13 +294,25 @@ Qed.
 Lemma switch_pairs_rn r last :
   switch_pairs ueqb' (rn_router r) (rn_tid last) = rmap (map rn_pair) (switch_pairs ueqb r last).
 Proof.
-  unfold switch_pairs. rewrite all_categories_rn.
-  change (@nil U') with (map sg (@nil U)). rewrite category_pairs_rn.
-  destruct (category_pairs ueqb r last (all_categories r) []) as [[ps cv]|e]; cbn; [|reflexivity].
-  fold (mem_u ueqb' (sg (c_uuid (sw_default r))) (map sg cv)). fold (mem_u ueqb (c_uuid (sw_default r)) cv).
-  rewrite mem_u_rn. rewrite !map_app. f_equal. f_equal. f_equal.
-  - destruct (mem_u ueqb (c_uuid (sw_default r)) cv); reflexivity.
-  - destruct (sw_noresp r); reflexivity.
+  unfold switch_pairs. rewrite all_categories_rn, noresp_pairs_rn.
+  change (@nil U') with (map sg (@nil U)).
+  assert (Htail : forall ps cv,
+    map rn_pair ps
+    ++ (if mem_u ueqb' (c_uuid (sw_default (rn_router r))) (map sg cv) then []
+        else [(c_dest (sw_default (rn_router r)), {| e_from := rn_tid last; e_cond := no_cond |})])
+    ++ map rn_pair (noresp_pairs r last)
+    = map rn_pair (ps ++ (if mem_u ueqb (c_uuid (sw_default r)) cv then []
+                          else [(c_dest (sw_default r), {| e_from := last; e_cond := no_cond |})])
+                      ++ noresp_pairs r last)).
+  { intros ps cv. cbn [sw_default rn_router c_uuid c_dest rn_cat]. rewrite mem_u_rn, !map_app.
+    destruct (mem_u ueqb (c_uuid (sw_default r)) cv); reflexivity. }
+  destruct pairs_follow_cases.
+  - cbn [sw_cases rn_router]. rewrite case_pairs_rn.
+    destruct (case_pairs ueqb r last (all_categories r) (sw_cases r) []) as [[ps cv]|e]; cbn [rmap bind rn_pc fst snd]; [|reflexivity].
+    rewrite Htail. reflexivity.
+  - rewrite category_pairs_rn.
+    destruct (category_pairs ueqb r last (all_categories r) []) as [[ps cv]|e]; cbn [rmap bind rn_pc fst snd]; [|reflexivity].
+    rewrite Htail. reflexivity.
 Qed.
 
 Lemma exit_edge_pairs_rn n last :
@@ -308,6 +357,24 @@ Proof.
     + apply Hrec.
 Qed.
 
+Lemma cond_blank_rn c : cond_blank (rn_cond c) = cond_blank c.
+Proof. unfold cond_blank; cbn. destruct (cd_value c) as [u|[v|l|l]]; reflexivity. Qed.
+
+Lemma has_free_cases_rn n : has_free_cases (rn_node n) = has_free_cases n.
+Proof. unfold has_free_cases; cbn [n_kind rn_node]. destruct (n_kind n) as [d|rk r|rs cats]; [reflexivity| |reflexivity]. destruct rk; reflexivity. Qed.
+
+Lemma step_fx_rn nodes keep sn rec rec' :
+  (forall c e s, rec' (rn_node c) (rn_tedge e) (rn_state s) = rmap rn_state (rec c e s)) ->
+  forall st p, step_fx ueqb' (map rn_node nodes) keep sn rec' (rn_state st) (rn_pair p)
+               = rmap rn_state (step_fx ueqb nodes keep sn rec st p).
+Proof.
+  intros Hrec st [d e]. unfold step_fx. cbn [fst snd rn_pair].
+  destruct d as [d|]; cbn [rn_ou option_map].
+  - apply (step_rn nodes rec rec' Hrec st (Some d, e)).
+  - cbn [e_cond rn_tedge rn_edge]. rewrite cond_blank_rn.
+    destruct (keep && negb (cond_blank (e_cond e))); reflexivity.
+Qed.
+
 Lemma visit_rn nodes : forall fuel n pe st,
   visit ueqb' (map rn_node nodes) fuel (rn_node n) (rn_tedge pe) (rn_state st)
   = rmap rn_state (visit ueqb nodes fuel n pe st).
@@ -320,8 +387,9 @@ Proof.
   rewrite <- map_rev.
   match goal with |- context [foldM _ _ ?s0] =>
     change s0 with (rn_state {| st_vis := n_uuid n :: st_vis st; st_done := st_done st; st_rows := st_rows st; st_k := st_k st |}) end.
-  rewrite (foldM_rn rn_pair rn_state (step ueqb nodes (visit ueqb nodes fuel))).
-  2:{ intros a s. apply step_rn. exact IH. }
+  rewrite has_free_cases_rn.
+  rewrite (foldM_rn rn_pair rn_state (step_fx ueqb nodes (loose_exit_rows && has_free_cases n) sn (visit ueqb nodes fuel))).
+  2:{ intros a s. apply step_fx_rn. exact IH. }
   destruct (foldM _ (rev prs) _) as [st'|e]; cbn; [|reflexivity].
   unfold rn_state; cbn. rewrite map_app. reflexivity.
 Qed.
@@ -514,15 +582,20 @@ Proof.
   - inversion H; subst; reflexivity.
 Qed.
 
+Lemma split_save_name_ok s : forallb fv_ok (split_save_name (U:=U) s) = true.
+Proof. unfold split_save_name. destruct split_rows_carry_save_name; reflexivity. Qed.
+
 Lemma router_kwargs_ok r tp : router_kwargs r = Ok tp -> forallb fv_ok (snd tp) = true.
 Proof.
   unfold router_kwargs. destruct (sw_wait r).
   - intros H; inversion H; subst; reflexivity.
   - destruct (str_eqb (sw_operand r) groups_operand).
-    + destruct (sw_cases r) as [|k ks]; [discriminate|].
-      destruct (case_arg1 k); [|discriminate]. destruct (case_arg0 k); [|discriminate].
-      intros H; inversion H; subst. cbn [snd forallb]. rewrite fv_ok_obj. reflexivity.
-    + intros H; inversion H; subst; reflexivity.
+    + destruct (sw_cases r) as [|k ks].
+      * destruct group_split_without_cases_exports; [|discriminate].
+        intros H; injection H as <-. cbn [snd forallb]. rewrite split_save_name_ok, fv_ok_obj. reflexivity.
+      * destruct (case_arg1 k); [|discriminate]. destruct (case_arg0 k); [|discriminate].
+        intros H; injection H as <-. cbn [snd forallb]. rewrite split_save_name_ok, fv_ok_obj. reflexivity.
+    + intros H; injection H as <-. cbn [snd forallb]. rewrite split_save_name_ok. reflexivity.
 Qed.
 
 Lemma node_base_pay_ok n : forallb fv_ok (node_base_pay n) = true.
@@ -559,7 +632,7 @@ Proof.
     + destruct rk; try discriminate.
       destruct (router_kwargs r) as [kw'|e'] eqn:Er; cbn [bind] in Ek; [|discriminate].
       inversion Ek; subst. apply (router_kwargs_ok _ _ Er).
-    + inversion Ek; subst. reflexivity.
+    + inversion Ek; subst. apply split_save_name_ok.
   - apply (action_rows_ok _ _ _ _ _ _ _ (node_base_pay_ok n) Hpe H).
 Qed.
 
@@ -603,17 +676,42 @@ Proof.
     + apply (IH _ _ Hr H).
 Qed.
 
+Lemma case_pairs_ok r last cats cases : forall covered pc,
+  router_ok r = true -> (forall k, In k cases -> In k (sw_cases r)) ->
+  case_pairs ueqb r last cats cases covered = Ok pc -> pairs_ok (fst pc).
+Proof.
+  induction cases as [|k rest IH]; intros covered pc Hr Hsub H; cbn [case_pairs] in H.
+  - inversion H; subst. constructor.
+  - assert (Hrest : forall k', In k' rest -> In k' (sw_cases r)) by (intros k' Hk'; apply Hsub; right; exact Hk').
+    destruct (find _ cats) as [c|] eqn:Ef.
+    + destruct (case_cond r k c) as [cd|e] eqn:Ec; cbn [bind] in H; [|discriminate].
+      destruct (case_pairs ueqb r last cats rest (c_uuid c :: covered)) as [more|e] eqn:Em; cbn [bind] in H; [|discriminate].
+      inversion H; subst. cbn [fst]. constructor.
+      * unfold edge_ok. cbn [snd e_cond]. apply (case_cond_ok _ _ _ _ Hr (Hsub k (or_introl eq_refl)) Ec).
+      * apply (IH _ _ Hr Hrest Em).
+    + apply (IH _ _ Hr Hrest H).
+Qed.
+
+Lemma noresp_pairs_ok r last : pairs_ok (noresp_pairs r last).
+Proof.
+  unfold noresp_pairs. destruct (sw_noresp r) as [c|]; [|constructor].
+  destruct (c_dest c); [constructor; [reflexivity|constructor]|].
+  destruct loose_exit_rows; constructor; [reflexivity|constructor].
+Qed.
+
 Lemma exit_edge_pairs_ok n last prs :
   node_ok n = true -> exit_edge_pairs ueqb n last = Ok prs -> pairs_ok prs.
 Proof.
   unfold node_ok, exit_edge_pairs. destruct (n_kind n) as [d|rk r|rs cats]; intros Hn H.
   - inversion H; subst. constructor; [reflexivity|constructor].
   - unfold switch_pairs in H.
-    destruct (category_pairs ueqb r last (all_categories r) []) as [pc|e] eqn:Ec; cbn [bind] in H; [|discriminate].
+    destruct (if pairs_follow_cases then _ else _) as [pc|e] eqn:Ec; cbn [bind] in H; [|discriminate].
     inversion H; subst. unfold pairs_ok. rewrite !Forall_app. split; [|split].
-    + apply (category_pairs_ok _ _ _ _ _ Hn Ec).
+    + destruct pairs_follow_cases.
+      * apply (case_pairs_ok _ _ _ _ _ _ Hn (fun k Hk => Hk) Ec).
+      * apply (category_pairs_ok _ _ _ _ _ Hn Ec).
     + destruct (mem_u ueqb _ _); constructor; [reflexivity|constructor].
-    + destruct (sw_noresp r); constructor; [reflexivity|constructor].
+    + apply noresp_pairs_ok.
   - inversion H; subst. unfold pairs_ok. rewrite Forall_map. apply Forall_forall. intros c _. reflexivity.
 Qed.
 
@@ -662,16 +760,28 @@ Proof.
     + apply (Hrec _ _ _ _ Ef He Hok H).
 Qed.
 
-Lemma foldM_step_ok rec :
+Lemma step_fx_ok keep sn rec :
+  (forall c e s s', In c nodes -> edge_ok e = true -> rows_ok (st_rows s) -> rec c e s = Ok s' -> rows_ok (st_rows s')) ->
+  forall st p st', edge_ok (snd p) = true -> rows_ok (st_rows st) ->
+                   step_fx ueqb nodes keep sn rec st p = Ok st' -> rows_ok (st_rows st').
+Proof.
+  intros Hrec st [d e] st' He Hok H. unfold step_fx in H. cbn [fst snd] in *.
+  destruct d as [d|]; [apply (step_ok rec Hrec st (Some d, e) st' He Hok H)|].
+  destruct (keep && negb (cond_blank (e_cond e))); inversion H; subst; [|exact Hok].
+  cbn [st_rows]. constructor; [|exact Hok].
+  unfold row_ok, loose_row. cbn [r_edges r_pay forallb]. rewrite He. reflexivity.
+Qed.
+
+Lemma foldM_step_ok keep sn rec :
   (forall c e s s', In c nodes -> edge_ok e = true -> rows_ok (st_rows s) -> rec c e s = Ok s' -> rows_ok (st_rows s')) ->
   forall prs st st', pairs_ok prs -> rows_ok (st_rows st) ->
-                     foldM (step ueqb nodes rec) prs st = Ok st' -> rows_ok (st_rows st').
+                     foldM (step_fx ueqb nodes keep sn rec) prs st = Ok st' -> rows_ok (st_rows st').
 Proof.
   intros Hrec prs. induction prs as [|p rest IH]; intros st st' Hp Hok H; cbn [foldM] in H.
   - inversion H; subst; exact Hok.
   - inversion Hp as [|p0 l0 Hp1 Hp2]; subst.
-    destruct (step ueqb nodes rec st p) as [st1|e] eqn:Es; [|discriminate].
-    apply (IH _ _ Hp2 (step_ok rec Hrec _ _ _ Hp1 Hok Es) H).
+    destruct (step_fx ueqb nodes keep sn rec st p) as [st1|e] eqn:Es; [|discriminate].
+    apply (IH _ _ Hp2 (step_fx_ok keep sn rec Hrec _ _ _ Hp1 Hok Es) H).
 Qed.
 
 Lemma visit_ok : forall fuel n pe st st',
@@ -685,7 +795,7 @@ Proof.
   destruct (foldM _ (rev prs) _) as [st1|e] eqn:Ef; cbn [bind] in H; [|discriminate].
   inversion H; subst. cbn [st_rows]. unfold rows_ok. rewrite Forall_app. split.
   - apply (initiate_row_models_ok _ _ _ _ Hpe Ei).
-  - apply (foldM_step_ok _ IH _ _ _) in Ef; [exact Ef| |exact Hok].
+  - apply (foldM_step_ok _ _ _ IH _ _ _) in Ef; [exact Ef| |exact Hok].
     unfold pairs_ok. apply Forall_rev. apply (exit_edge_pairs_ok _ _ _ (node_in_ok _ Hin) Ee).
 Qed.
 
